@@ -121,7 +121,8 @@ def main():
                     os.remove(result)
                 p = subprocess.run(["strace", "-f", "-qq", "--seccomp-bpf", "-o", "/dev/null", "-e", "trace=" + cls,
                                     "-e", f"inject={cls}:error={errno}:when={ordn}",
-                                    binp, "faultrun", "--seed", str(seed), "--case", str(case_no), "--dir", tree,
+                                    binp, "faultrun", "--after-failure", ("close" if (ordn + op) % 4 == 3 else "retry"),
+                                    "--seed", str(seed), "--case", str(case_no), "--dir", tree,
                                     "--markers", markers, "--result", result, "--known", known],
                                    stdout=subprocess.DEVNULL, stderr=subprocess.PIPE, text=True)
                 runs_here += 1
@@ -133,6 +134,8 @@ def main():
                     r = {"violation": {"tags": ["C16"], "sig": f"fault:process-died:{opname}", "msg": f"faultrun exited with {p.returncode} and no result: {p.stderr[-400:]}"}, "failed_calls": []}
                 else:
                     r = json.load(open(result))
+                if r.get("closed_after_failure"):
+                    bump("runs_closed_and_reopened_after_the_failure")
                 if r.get("failed_calls"):
                     bump("runs_where_a_call_returned_err")
                     bump("retries_succeeded" if not r.get("violation") else "retries_or_checks_failed")
